@@ -14,6 +14,7 @@ import GitAiModel.Driver.Remap
 import GitAiModel.Driver.Redact
 import GitAiModel.Driver.Routing
 import GitAiModel.Driver.Profile
+import GitAiModel.Driver.Sys
 namespace GitAi.Driver
 open Lean
 
@@ -29,7 +30,8 @@ def handlers : List (String → Json → Option (Except String Json)) := [
   RemapD.handle,
   RedactD.handle,
   RoutingD.handle,
-  ProfileD.handle
+  ProfileD.handle,
+  SysD.handle
 ]
 
 end GitAi.Driver
